@@ -13,9 +13,12 @@
                                     (math.isclose may cover a deficit that exceeds the donor's excess by <= 1e-9 relative);
                                (ii) the left-over handed to the greedy top-up is non-negative
                                     (request - assigned >= 0).
-                              NOT YET DERIVED from `admitted gs p` inside Coq -- hence the `_partial` names. *)
+                              Derived inside Coq only for deficit-free runs (C01_side_ok_when_no_deficit); NOT derived
+                              from `admitted gs p` in general -- hence the `_partial` names.  Missing: with deficits,
+                              "an uncovered deficit implies every excess <= 1e-9" gives request - assigned >= -n*1e-9 only,
+                              so the general statement needs tolerance-slack versions of the lower-bound lemmas. *)
 From Coq Require Import QArith List.
-From Verif Require Import model.Dist proofs.DistFacts proofs.DistBounds proofs.DistTop proofs.DistWitness.
+From Verif Require Import model.Dist proofs.DistFacts proofs.DistBounds proofs.DistTop proofs.DistShares proofs.DistWitness.
 Import ListNotations.
 Open Scope Q_scope.
 
@@ -41,6 +44,13 @@ Theorem C01_remainder_partial : forall powf gs p r,
   (0 < p -> 0 <= res_rem r <= p) /\ (p < 0 -> p <= res_rem r <= 0).
 Proof. exact distribute_remainder. Qed.
 
+(* side_ok holds whenever no battery group's proportional share falls below its minimum power (no deficit entry
+   after the reservation loop), for every pow function that is non-negative on non-negative arguments:
+   the proportional shares never add up to more than the request *)
+Theorem C01_side_ok_when_no_deficit : forall powf gs p,
+  wf_groups gs -> (forall x, 0 <= x -> 0 <= powf x) -> deficit_free powf gs p -> side_ok powf gs p.
+Proof. exact deficit_free_side_ok. Qed.
+
 (* the side conditions can be discharged by evaluation for any concrete input *)
 Theorem C01_side_conditions_decidable : forall gs p, lower_okb gs p = true -> lower_ok gs p.
 Proof. exact lower_okb_ok. Qed.
@@ -58,5 +68,6 @@ Print Assumptions C01_sum.
 Print Assumptions C01_reported_is_commanded.
 Print Assumptions C01_sign_partial.
 Print Assumptions C01_remainder_partial.
+Print Assumptions C01_side_ok_when_no_deficit.
 Print Assumptions C01_side_conditions_decidable.
 Print Assumptions C01_nonvacuous.
